@@ -17,23 +17,8 @@ fn mk_gamedata() -> GameData {
     }
 }
 
-//@unit props=C01 label=B tier=quick fn=gamedata::GameData::parse_repository_category bound="paths bg/ex1/<c>, bg/ex2/<c>, bg/ffxiv/<c>, bg/<c><d> with symbolic lower-case letters c, d; repositories ffxiv, ex1, ex2" stubs=RandomState::new
-//@desc the category is the one named by the first path segment and the repository is the one whose name equals the second path segment, else the base repository
-#[kani::proof]
-#[kani::unwind(12)]
-#[kani::stub(std::collections::hash_map::RandomState::new, rs_model)]
-fn k_parse_repository_category() {
+fn prc_contract(bytes: &[u8], want: usize) {
     let gd = mk_gamedata();
-    let c: u8 = kani::any();
-    let d: u8 = kani::any();
-    kani::assume(c >= b'a' && c <= b'z' && d >= b'a' && d <= b'z');
-    let which: u8 = kani::any();
-    kani::assume(which < 4);
-    let b1 = [b'b', b'g', b'/', b'e', b'x', b'1', b'/', c];
-    let b2 = [b'b', b'g', b'/', b'e', b'x', b'2', b'/', c];
-    let b3 = [b'b', b'g', b'/', b'f', b'f', b'x', b'i', b'v', b'/', c];
-    let b4 = [b'b', b'g', b'/', c, d];
-    let (bytes, want): (&[u8], usize) = if which == 0 { (&b1, 1) } else if which == 1 { (&b2, 2) } else if which == 2 { (&b3, 0) } else { (&b4, 0) };
     let path = unsafe { std::str::from_utf8_unchecked(bytes) };
     match gd.parse_repository_category(path) {
         Some((r, cat)) => {
@@ -42,19 +27,43 @@ fn k_parse_repository_category() {
         }
         None => assert!(false, "a path with a known category resolves"),
     }
-    kani::cover!(which == 1, "reachable");
+    kani::cover!(true, "reachable");
     core::mem::forget(gd);
 }
+fn any_lower() -> u8 { let c: u8 = kani::any(); kani::assume(c >= b'a' && c <= b'z'); c }
 
-//@unit props=C01 label=B tier=quick fn=gamedata::GameData::parse_repository_category bound="paths zz/<c> (unknown category) and a 3-letter path without '/'" stubs=RandomState::new
+//@unit props=C01 label=B tier=quick fn=gamedata::GameData::parse_repository_category bound="paths bg/ex1/<c> with a symbolic lower-case letter c; repositories ffxiv, ex1, ex2" stubs=RandomState::new
+//@desc the category is the one named by the first path segment and the repository is the one whose name equals the second path segment
+#[kani::proof]
+#[kani::unwind(12)]
+#[kani::stub(std::collections::hash_map::RandomState::new, rs_model)]
+fn k_parse_repository_category_ex1() { prc_contract(&[b'b', b'g', b'/', b'e', b'x', b'1', b'/', any_lower()], 1); }
+
+//@unit props=C01 label=B tier=quick fn=gamedata::GameData::parse_repository_category bound="paths bg/ex2/<c><d> with symbolic lower-case letters" stubs=RandomState::new
+//@desc second expansion
+#[kani::proof]
+#[kani::unwind(12)]
+#[kani::stub(std::collections::hash_map::RandomState::new, rs_model)]
+fn k_parse_repository_category_ex2() { prc_contract(&[b'b', b'g', b'/', b'e', b'x', b'2', b'/', any_lower(), any_lower()], 2); }
+
+//@unit props=C01 label=B tier=quick fn=gamedata::GameData::parse_repository_category bound="paths bg/ffxiv/<c> and bg/<c><d> with symbolic lower-case letters" stubs=RandomState::new
+//@desc a path that names the base repository, or no repository at all, resolves to the base repository
+#[kani::proof]
+#[kani::unwind(12)]
+#[kani::stub(std::collections::hash_map::RandomState::new, rs_model)]
+fn k_parse_repository_category_base() {
+    if kani::any() { prc_contract(&[b'b', b'g', b'/', b'f', b'f', b'x', b'i', b'v', b'/', any_lower()], 0); }
+    else { prc_contract(&[b'b', b'g', b'/', any_lower(), any_lower()], 0); }
+}
+
+//@unit props=C01 label=B tier=thorough fn=gamedata::GameData::parse_repository_category bound="paths zz/<c> (unknown category) and a 3-letter path without '/'" stubs=RandomState::new
 //@desc unknown categories and paths without a separator resolve to nothing
 #[kani::proof]
 #[kani::unwind(12)]
 #[kani::stub(std::collections::hash_map::RandomState::new, rs_model)]
 fn k_parse_repository_category_none() {
     let gd = mk_gamedata();
-    let c: u8 = kani::any();
-    kani::assume(c >= b'a' && c <= b'z');
+    let c = any_lower();
     let b1 = [b'z', b'z', b'/', c];
     let b2 = [b'b', b'g', c];
     assert!(gd.parse_repository_category(unsafe { std::str::from_utf8_unchecked(&b1) }).is_none(), "unknown category");
